@@ -7,6 +7,8 @@ open Model
 open Model.SplitM
 open Model.ArcListM
 type string = Stdlib.String.t
+let max = Stdlib.max
+let min = Stdlib.min
 open Conv
 
 type part = (int * int list) list
